@@ -109,7 +109,7 @@ var floors = map[string][]string{
 	"C06": {"cause:cancel", "cause:eof", "cause:master-err", "cause:transport", "cause:handler", "cause:mapper", "cause:gate-reject", "cause:unsupported-event", "cause:undecodable-event", "cause:preconnect", "err-message-carried", "error-call:immediately", "error-call:after-quiescence"},
 	"C07": {"attempt:position-set", "attempt:stored-position", "server-id>=2^31", "set-rejected", "stored-position-after-stream", "failed-before-dump:dump-write-fail", "failed-before-dump:set-close"},
 	"C08": {"mode:observe", "mode:scribble"},
-	"C15": {"stream:id-rebound-after-restart", "stream:id-rebound-to-name-differing-in-case-only", "stream:id-reannounced-with-other-column-count"},
+	"C15": {"stream:id-rebound-after-restart", "stream:id-rebound-to-name-differing-in-case-only", "stream:id-reannounced-with-other-column-count", "stream:hundreds-of-table-ids"},
 	"C17": {"gate:structured", "gate:random-valid", "gate:random-invalid", "gate:truncated-or-extended-events", "stream:inject:empty", "stream:inject:truncated-by-1", "stream:inject:random", "stream:inject:first-13", "stream:inject:first-16"},
 	"C10": {"e2e:values-compared"},
 	"C11": {"e2e:values-compared"},
